@@ -4,3 +4,5 @@ import HkModel.Props.Queue
 import HkModel.Props.C06
 import HkModel.Props.C16
 import HkModel.Props.C10
+import HkModel.Props.C08
+import HkModel.Props.C17
